@@ -119,7 +119,8 @@ CHECKS.update({
              "closure and of the consumer predicate, or nowhere (1.7 M / 38 M cases), is executed on the real code with counting host functions that abort after "
              "1000 calls. Call counts must lie between the needed prefix and needed + one read-ahead per stage of a declarative demand model whose transfer "
              "functions are validated against brute-force prefix stability; the result must be what the needed prefix determines (a failure inside it surfaces, "
-             "behind it does not); unconsumed pipelines evaluate nothing. Coop build: one slow map/accept stage, 11 consumers, decisive source element 10..15, "
+             "behind it does not); the clean cases again with the consumer running twice on the same lazy list in one evaluation (same result, calls within "
+             "twice the bounds); unconsumed pipelines evaluate nothing. Coop build: one slow map/accept stage, 11 consumers, decisive source element 10..15, "
              "W=2 (thorough: 2,3): ALL interleavings on n=30 (terminates, sequential result, needed <= calls) and all timing-consistent interleavings on n=30 and "
              "10^11 (calls <= sequential demand + W, pulls <= +1, independent of the source length).",
         note="Trusted: the check's own eager reference and demand model (cmd/c08/model.go, validated against brute force over 32 continuations), the counting host "
